@@ -36,9 +36,10 @@ class Program:
             self.node = specs.struct(self.name, body)
         else:
             fam = f"Fam{slot % specs.N_FAMILIES + 1}"  # unique per batch position
+            act = "Act" if pid % 2 == 0 else "Other"
             suffix = "ClientPacket" if file == "net/client" else "ServerPacket"
-            self.name = f"{fam}Act{suffix}"
-            self.node = specs.packet(fam, "Act", body)
+            self.name = f"{fam}{act}{suffix}"
+            self.node = specs.packet(fam, act, body)
         if attrs:
             self.node.attrs.update(attrs)
 
